@@ -148,4 +148,14 @@ theorem specSteps_allValue_err (cfg : Cfg) : ∀ (ss : List Step) (c : Nat) (inh
       rw [specCall_skip _ _ _ _ _ _ _ _ _ (by rfl)]
       exact specSteps_allValue_err cfg ss c _ _ _ hss
 
+/-- a cancelled Schedule head (value callback, no argument) is Dropped: not invoked, StopError goes down the chain -/
+theorem specSteps_cancel_head (cfg : Cfg) (i : Nat) (b : Beh) (as : List Step) (inh : Exec) (subs inv : List Nat)
+    (has : allValue as = true) :
+    (specSteps cfg ((.mk i .val (.on .stp) b) :: as) true (.val 0) inh subs inv).invoked = inv ∧
+    ∃ c, (specSteps cfg ((.mk i .val (.on .stp) b) :: as) true (.val 0) inh subs inv).r = .err c := by
+  rw [specSteps_cons]
+  simp only [Step.mode, Mode.submits, Bool.or_true, ite_true, ownExec, Mode.explicit, offered]
+  rw [specCall_skip _ _ _ _ _ _ _ _ _ (by rfl)]
+  exact specSteps_allValue_err cfg as 0 _ _ _ has
+
 end Yaclib.Pipeline
